@@ -107,3 +107,17 @@ package balance
 
 // currency set invariant: a currency is registered under its own name
 //@ ghost func curOK(l *CurrencySet) bool = l != nil && l.nameMap != nil && (forall n string :: has(l.nameMap, n) ==> l.nameMap[n].Name == n)
+
+// 10^Decimal: big.Int.Exp is not modelled by the verifier; a power of ten is positive (T-BIG) — assumed
+//@ ghost func curBase(decimal int) int
+//@ assume func (Currency).Base
+//@   modifies nothing
+//@   ensures result != nil && fresh(result) && big(result) == curBase(c.Decimal) && curBase(c.Decimal) > 0
+
+// GetBalance collects the balances of an address by iterating the store (read-only) — assumed. The resulting map
+// holds, per currency name, a coin of that currency with a non-nil amount.
+//@ ghost func balanceOK(b *Balance) bool = b != nil && b.Amounts != nil && (forall n string :: has(b.Amounts, n) ==> b.Amounts[n].Currency.Name == n && b.Amounts[n].Amount != nil)
+//@ assume func (*Store).GetBalance
+//@   modifies nothing
+//@   ensures balance != nil && fresh(balance)
+//@   ensures err == nil ==> balanceOK(balance)
